@@ -41,8 +41,10 @@ def write_evidence(pid, tier, seed, coverage, wall, violations, assumptions):
         'property_id': pid, 'tier': tier, 'seed': seed, 'level': 'exploration',
         'coverage': coverage, 'assumptions': assumptions, 'wall_s': round(wall, 2), 'violations': violations,
     }
-    os.makedirs(os.path.join(HERE, 'evidence'), exist_ok=True)
-    with open(os.path.join(HERE, 'evidence', pid + '.json'), 'w') as f:
+    # evidence describes checks of /repo itself; runs against a scratch copy (sensitivity experiments) are kept apart
+    sub = 'evidence' if os.path.realpath(os.environ.get('AY_REPO', '/repo')) == '/repo' else os.path.join('evidence', '.scratch')
+    os.makedirs(os.path.join(HERE, sub), exist_ok=True)
+    with open(os.path.join(HERE, sub, pid + '.json'), 'w') as f:
         json.dump(ev, f, indent=1, default=repr, ensure_ascii=False)
         f.write('\n')
 
